@@ -7,7 +7,7 @@
 (* that the operation semantics the trace validation uses as its oracle    *)
 (* really has them.                                                        *)
 (***************************************************************************)
-EXTENDS ArcheAbs, FiniteSetsExt
+EXTENDS ArcheAbs, FiniteSetsExt, Json
 
 CONSTANTS MaxH,      \* handles issued between two resets
           Comps,     \* component ids
@@ -16,11 +16,12 @@ CONSTANTS MaxH,      \* handles issued between two resets
           MaxSeq,    \* maximal length of id lists in arguments
           MaxOpen,   \* held queries
           MaxRegs,   \* registered filters
-          Vals       \* values written by Set
+          Vals,      \* values written by Set
+          MaxEmit    \* histories up to this length (+1) are printed as symbolic schedules when they end in an illegal call
 
-VARIABLES w, last
+VARIABLES w, last, hist, steps
 
-vars == <<w, last>>
+vars == <<w, last, hist, steps>>
 
 Cfg == [comps |-> Comps, rels |-> Rels, sized |-> Sized, nres |-> 1, totalBits |-> 256,
         lst |-> [on |-> TRUE, S |-> 63, C |-> {}, hasC |-> FALSE], isDispatch |-> FALSE, subs |-> <<>>, capInc |-> 1, relCapInc |-> 0]
@@ -73,7 +74,17 @@ L(op, why, ents, evs, single, t, hasT) ==
     [op |-> op, why |-> why, ents |-> ents, evs |-> evs, single |-> single, structural |-> TRUE,
      tgtArg |-> t, hasTgtArg |-> hasT, add |-> <<>>, rem |-> <<>>, hasRel |-> FALSE, rel |-> -1]
 
-Init == w = InitWorld(Cfg) /\ last = NoLast
+(* symbolic schedule records for the Go harness; entities by issuance index (handles are <<k, 0>>) *)
+HRef(h) == IF h = Zero THEN -1 ELSE h[1] - 1
+RECURSIVE HFJ(_)
+HFJ(f) == IF f.k = "rel" THEN [k |-> "rel", ids |-> <<>>, exc |-> <<>>, subs |-> << HFJ(f.subs[1]) >>, tgt |-> HRef(f.tgt), reg |-> 0]
+          ELSE IF f.k = "cached" THEN [k |-> "cached", ids |-> <<>>, exc |-> <<>>, subs |-> <<>>, tgt |-> -1, reg |-> f.reg]
+          ELSE [k |-> f.k, ids |-> f.ids, exc |-> f.exc, subs |-> <<>>, tgt |-> -1, reg |-> 0]
+HOp == [op |-> "", api |-> "", ids |-> <<>>, add |-> <<>>, rem |-> <<>>, e |-> 0, tgt |-> -1, hasRel |-> FALSE, rel |-> 0,
+        hasTgt |-> FALSE, n |-> 0, c |-> 0, v |-> 0, reg |-> 0, qi |-> 0, r |-> 0, w |-> 0]
+Log(rec) == hist' = Append(hist, rec) /\ steps' = steps + 1
+
+Init == w = InitWorld(Cfg) /\ last = NoLast /\ hist = <<>> /\ steps = 0
 
 Create ==
     \E ids \in IdSeqs, ra \in RelArgs(w), n \in 1..2 :
@@ -84,12 +95,15 @@ Create ==
                w2 == IF why = "" THEN CreateStep(w, hs, ids, <<>>, hasTgt, t) ELSE w
            IN /\ w' = w2
               /\ last' = L("Create", why, Range(hs), IF why = "" THEN CreateEvents(w2, hs, ids) ELSE {}, FALSE, t, hasTgt)
+              /\ Log([HOp EXCEPT !.op = IF n = 1 THEN "BuilderNew" ELSE "NewBatch", !.api = IF n = 1 THEN "Builder.New" ELSE "Builder.NewBatch",
+                                 !.ids = ids, !.hasRel = hasRel, !.rel = rel, !.hasTgt = hasTgt, !.tgt = HRef(t), !.n = n])
 
 Remove ==
     \E h \in Handles(w) :
         LET why == RemoveWhy(w, h) IN
         /\ w' = IF why = "" THEN RemoveStep(w, h) ELSE w
         /\ last' = L("Remove", why, {h}, IF why = "" THEN { RemoveEvent(w, h) } ELSE {}, TRUE, Zero, FALSE)
+        /\ Log([HOp EXCEPT !.op = "RemoveEntity", !.e = HRef(h)])
 
 Exchange ==
     \E h \in Handles(w), add \in IdSeqs, rem \in IdSeqs, ra \in RelArgs(w) :
@@ -99,18 +113,22 @@ Exchange ==
            IN /\ w' = w2
               /\ last' = [L("Exchange", why, {h}, IF why = "" THEN ExchangeEvents(w, w2, h, add, rem) ELSE {}, TRUE,
                             t, hasRel /\ hasTgt) EXCEPT !.add = add, !.rem = rem]
+              /\ Log([HOp EXCEPT !.op = "Exchange", !.api = IF hasRel THEN (IF rem = <<>> THEN "Builder.Add" ELSE "Relations.Exchange") ELSE "World.Exchange",
+                                 !.e = HRef(h), !.add = add, !.rem = rem, !.hasRel = hasRel, !.rel = rel, !.hasTgt = hasTgt, !.tgt = HRef(t)])
 
 SetVal ==
     \E h \in Handles(w), c \in Comps, v \in Vals :
         LET why == SetWhy(w, h, c) IN
         /\ w' = IF why = "" THEN SetStep(w, h, c, v) ELSE w
         /\ last' = [L("Set", why, {h}, {}, TRUE, Zero, FALSE) EXCEPT !.structural = FALSE]
+        /\ Log([HOp EXCEPT !.op = "Set", !.api = "World.Set", !.e = HRef(h), !.c = c, !.v = v])
 
 SetRel ==
     \E h \in Handles(w), rel \in Comps, t \in Targets(w) :
         LET why == SetRelWhy(w, h, rel, t) IN
         /\ w' = IF why = "" THEN SetRelStep(w, h, t) ELSE w
         /\ last' = L("SetRel", why, {h}, IF why = "" THEN SetRelEvents(w, h, rel, t) ELSE {}, TRUE, t, TRUE)
+        /\ Log([HOp EXCEPT !.op = "SetRelation", !.e = HRef(h), !.rel = rel, !.tgt = HRef(t)])
 
 BatchExchange ==
     \E f \in BatchFilters(w), add \in IdSeqs1, rem \in IdSeqs1, ra \in BatchRelArgs(w) :
@@ -126,6 +144,8 @@ BatchExchange ==
               /\ last' = [L("BatchExchange", why, M, IF why = "" THEN BatchExEvents(w, w2, M, add, rem) ELSE {}, FALSE,
                             t, hasRel)
                           EXCEPT !.add = add, !.rem = rem, !.hasRel = hasRel, !.rel = rel]
+              /\ Log([HOp EXCEPT !.op = "BatchExchange", !.api = IF hasRel THEN "Relations.ExchangeBatch" ELSE "Batch.Exchange",
+                                 !.add = add, !.rem = rem, !.hasRel = hasRel, !.rel = rel, !.tgt = HRef(t)] @@ [f |-> HFJ(f)])
 
 BatchSetRel ==
     \E f \in BatchFilters(w), rel \in Rels, t \in Targets(w) :
@@ -136,6 +156,7 @@ BatchSetRel ==
            /\ w' = IF why = "" THEN BatchSetRelStep(w, M, t) ELSE w
            /\ last' = [L("BatchSetRel", why, M, IF why = "" THEN BatchSetRelEvents(w, M, rel, t) ELSE {}, FALSE, t, TRUE)
                        EXCEPT !.rel = rel]
+           /\ Log([HOp EXCEPT !.op = "BatchSetRelation", !.api = "Relations.SetBatch", !.rel = rel, !.tgt = HRef(t)] @@ [f |-> HFJ(f)])
 
 BatchRemove ==
     \E f \in BatchFilters(w) :
@@ -143,11 +164,13 @@ BatchRemove ==
             M == BatchSet(w, f)
         IN /\ w' = IF why = "" THEN BatchRemoveStep(w, M) ELSE w
            /\ last' = L("BatchRemove", why, M, IF why = "" THEN BatchRemoveEvents(w, M) ELSE {}, FALSE, Zero, FALSE)
+           /\ Log([HOp EXCEPT !.op = "BatchRemove"] @@ [f |-> HFJ(f)])
 
 Reset ==
     LET why == LockWhy(w) IN
     /\ w' = IF why = "" THEN ResetStep(w) ELSE w
     /\ last' = L("Reset", why, {}, {}, FALSE, Zero, FALSE)
+    /\ Log([HOp EXCEPT !.op = IF why = "" THEN "ResetEndsHistory" ELSE "Reset"])
 
 OpenQ ==
     /\ Cardinality(DOMAIN w.open) < MaxOpen
@@ -155,23 +178,27 @@ OpenQ ==
     /\ \E f \in Filters(w) :
          /\ w' = OpenHeld(w, <<>>, {})
          /\ last' = [NoLast EXCEPT !.op = "Open"]
+         /\ Log([HOp EXCEPT !.op = "OpenQuery"] @@ [f |-> HFJ(f)])
 
 CloseQ ==
     \E q \in DOMAIN w.open :
         /\ w' = CloseHeld(w, q)
         /\ last' = [NoLast EXCEPT !.op = "Close"]
+        /\ Log([HOp EXCEPT !.op = "QClose", !.qi = q])
 
 Register ==
     /\ Len(w.regs) < MaxRegs
     /\ \E f \in RegFilters(w) :
          /\ w' = [w EXCEPT !.regs = Append(@, [f |-> f, live |-> TRUE])]
          /\ last' = [NoLast EXCEPT !.op = "Register"]
+         /\ Log([HOp EXCEPT !.op = "Register"] @@ [f |-> HFJ(f)])
 
 Unregister ==
     \E i \in DOMAIN w.regs :
         /\ w.regs[i].live
         /\ w' = [w EXCEPT !.regs[i].live = FALSE]
         /\ last' = [NoLast EXCEPT !.op = "Unregister"]
+        /\ Log([HOp EXCEPT !.op = "Unregister", !.reg = i - 1])
 
 Next == Create \/ Remove \/ Exchange \/ SetVal \/ SetRel \/ BatchExchange \/ BatchSetRel \/ BatchRemove
         \/ Reset \/ OpenQ \/ CloseQ \/ Register \/ Unregister
@@ -182,6 +209,13 @@ View == w
 
 ---------------------------------------------------------------------------
 (* Invariants *)
+
+StepBound == steps <= MaxEmit
+
+(* Fault cover: every history of at most MaxEmit+1 calls that ends in an ILLEGAL call (any illegal-argument class, *)
+(* from every world reachable within MaxEmit calls) is printed as a symbolic schedule.  Always TRUE.               *)
+EmitFaultPath == (steps <= MaxEmit + 1 /\ last.why # "" /\ \A i \in DOMAIN hist : hist[i].op # "ResetEndsHistory")
+                 => PrintT(<<"PATH", ToJson(hist)>>)
 
 (* C01/C05: well-formed world. *)
 WellFormed ==
